@@ -16,7 +16,7 @@ IdCases == {[kind |-> "ID", fs |-> fs] : fs \in UNION {[1..k -> Forms] : k \in 1
 
 \* constant values for the encoders: every sequence of up to N characters over the interesting classes
 \* a space ' " \ % e-acute newline : ; -
-ValueChars == {97, 32, 39, 34, 92, 37, 233, 10, 58, 59, 45}
+ValueChars == {97, 32, 39, 34, 92, 37, 233, 10, 13, 58, 59, 45}
 ValCases == {[kind |-> "VAL", v |-> v] : v \in SeqsUpTo(ValueChars, IF N > 3 THEN 4 ELSE 3)}
 \* identifier part lists for the encoder (the keyword class must be quoted by the printer)
 \* (also names whose upper-/lower-case form collides with a plain ASCII word: sharp s / "ss", the fi ligature / "fi")
